@@ -34,6 +34,9 @@ def profile(h=0):
     p = Profile(update=40, update_all=10, remove=0, remove_all=0, drop_measurement=0, insert=25, insert_multiple=5, reindex=6, reopen=4)
     p.getter_probes = True
     p.n_random_probes = 3
+    if h % 4 == 2:  # keys that look like the CSV prefixes, contain blanks or dots
+        p.extra_tag_keys = ["a b", "_tag_q", "t_q", "f_q"]
+        p.extra_field_keys = ["f_q", "x.y", "_field_q", "t_q"]
     if h % 8 == 5:
         p.max_rows = 45
         p.max_time_probes = 30
@@ -77,6 +80,13 @@ class Runner(HistoryRunner):
         return ok
 
 
+def _cfg_variant(cfg, h):
+    """Every third CSV history runs with flush_on_insert=False (reads go through the same buffered handle)."""
+    if cfg["storage"] == "csv" and h % 3 == 0:
+        return dict(cfg, flush=False)
+    return cfg
+
+
 def run(res, tier, seed, shard, nshards):
     contracts.install()
     res.rule = (
@@ -91,7 +101,7 @@ def run(res, tier, seed, shard, nshards):
         for ci, cfg in enumerate(CONFIGS):
             for h in range(N_HIST[tier]):
                 rng = rng_for("C03", tier, seed, shard, ci, h)
-                s = Runner(res, cfg, scratch, rng, profile(h), judge).run()
+                s = Runner(res, _cfg_variant(cfg, h), scratch, rng, profile(h), judge).run()
                 if h == 0 and shard == 0 and ci in (1, 2):
                     res.sample({"config": cfg_name(cfg), "first_ops": s.log[:5]})
     for b in contracts.drain(res):
